@@ -7,6 +7,7 @@ import (
 	"github.com/google/gce-tcb-verifier/extract/extractsev"
 	"runtime"
 	"strings"
+	"sync"
 	"time"
 
 	"github.com/google/gce-tcb-verifier/cmd/output"
@@ -65,6 +66,9 @@ type sched struct {
 	stall     int
 	deadlock  bool
 	stuck     bool
+	mu        sync.Mutex // guards tasks against registrations of helper goroutines
+	accepting bool       // helper goroutines may register (while run is scheduling)
+	naux      int
 }
 
 type stask struct {
@@ -78,25 +82,45 @@ type stask struct {
 	// to its next yield point after the holder has moved on.
 	waiting  bool
 	netFault bool // its own fetch hit the transient outage: its failure is legitimate
-	steps    int
-	fn       func()
-	panicV   any
+	// aux: a helper goroutine started by the code under test (a download with a deadline, say) that
+	// reached a yield point: it is scheduled like a task and is over when its goroutine is gone
+	aux    bool
+	steps  int
+	fn     func()
+	panicV any
 }
 
-// self returns the task of the calling goroutine. While no task has ever been found blocked for
-// real that is the one the scheduler resumed; afterwards a woken waiter may run beside it until
-// its next yield point, so the goroutine id decides.
+// self returns the task of the calling goroutine, or nil for a goroutine that is no task.
 func (s *sched) self() *stask {
-	if !s.anyWaiter {
-		return s.current
-	}
+	// (always by goroutine id: code under test may start helper goroutines of its own — a download
+	// with a deadline, say — which reach yield points too; they are nobody's task and run free)
 	g := goid()
+	s.mu.Lock()
+	defer s.mu.Unlock()
 	for _, t := range s.tasks {
 		if t.gid == g {
 			return t
 		}
 	}
-	return nil
+	if !s.accepting || s.maxSteps == 0 {
+		return nil
+	}
+	// a helper goroutine of the code under test: from now on the scheduler decides when it moves
+	// (registered as "waiting": not schedulable before the scheduler has heard from it, i.e. before
+	// it is really parked at this first yield point)
+	t := &stask{id: len(s.tasks), gid: g, resume: make(chan struct{}), aux: true, waiting: true}
+	s.tasks = append(s.tasks, t)
+	if s.prio != nil {
+		lowest := 0
+		for _, p := range s.prio {
+			if p < lowest {
+				lowest = p
+			}
+		}
+		s.prio = append(s.prio, lowest-1)
+	}
+	s.naux++
+	return t
 }
 
 func goid() string {
@@ -116,6 +140,9 @@ func (s *sched) yield(site string) {
 	}
 	t.steps++
 	if t.steps > s.maxSteps && !t.waiting {
+		if t.aux {
+			t.done = true // a helper that runs free from here on is nothing to schedule any more
+		}
 		return
 	}
 	s.back <- t.id
@@ -171,6 +198,27 @@ func blockedForReal(t *stask) bool {
 	return false
 }
 
+// snap returns the task list as it is now (helper goroutines may register concurrently).
+func (s *sched) snap() []*stask {
+	s.mu.Lock()
+	defer s.mu.Unlock()
+	return append([]*stask(nil), s.tasks...)
+}
+
+func (s *sched) task(id int) *stask {
+	s.mu.Lock()
+	defer s.mu.Unlock()
+	return s.tasks[id]
+}
+
+// goroutineGone reports whether the task's goroutine no longer exists (a helper goroutine of the
+// code under test that has returned).
+func goroutineGone(t *stask) bool {
+	buf := make([]byte, 1<<18)
+	n := runtime.Stack(buf, true)
+	return !strings.Contains(string(buf[:n]), "goroutine "+t.gid+" [")
+}
+
 // await waits until task pick parks (or finishes). Reports of woken waiters that reach a yield
 // point meanwhile are absorbed. It returns false if pick was found blocked for real.
 func (s *sched) await(pick *stask) bool {
@@ -184,9 +232,13 @@ func (s *sched) await(pick *stask) bool {
 			if id == pick.id {
 				return true
 			}
-			s.tasks[id].waiting = false // parked at a yield point now (or done): an ordinary task again
+			s.task(id).waiting = false // parked at a yield point now (or done): an ordinary task again
 		case <-timer.C:
 			waited += poll
+			if pick.aux && goroutineGone(pick) {
+				pick.done = true
+				return true
+			}
 			if blockedForReal(pick) {
 				pick.waiting, s.anyWaiter = true, true
 				s.nwaiting++
@@ -208,7 +260,9 @@ func (s *sched) run(fns []func()) {
 	s.back = make(chan int)
 	for i, f := range fns {
 		t := &stask{id: i, resume: make(chan struct{}), fn: f}
+		s.mu.Lock()
 		s.tasks = append(s.tasks, t)
+		s.mu.Unlock()
 		started := make(chan struct{})
 		go func(t *stask) {
 			t.gid = goid()
@@ -226,10 +280,18 @@ func (s *sched) run(fns []func()) {
 		<-started
 	}
 	s.last = -1
+	s.mu.Lock()
+	s.accepting = true
+	s.mu.Unlock()
+	defer func() {
+		s.mu.Lock()
+		s.accepting = false
+		s.mu.Unlock()
+	}()
 	for {
 		var runnable []*stask
 		alive, waiters := 0, 0
-		for _, t := range s.tasks {
+		for _, t := range s.snap() {
 			if !t.done {
 				alive++
 				if t.waiting {
@@ -250,7 +312,7 @@ func (s *sched) run(fns []func()) {
 				s.deadlock = true
 				break
 			}
-			for _, t := range s.tasks {
+			for _, t := range s.snap() {
 				if !t.done && !t.waiting {
 					t.blocked = false
 					runnable = append(runnable, t)
@@ -288,7 +350,7 @@ func (s *sched) run(fns []func()) {
 		} else {
 			pick = runnable[s.r.Intn(len(runnable), "pick")]
 		}
-		if s.last >= 0 && pick.id != s.last && !s.tasks[s.last].done {
+		if s.last >= 0 && pick.id != s.last && !s.task(s.last).done {
 			s.switches++
 		}
 		s.last = pick.id
@@ -307,7 +369,7 @@ func (s *sched) run(fns []func()) {
 		if !pick.blocked {
 			// progress: everybody who waited for a lock may try again
 			s.stall = 0
-			for _, t := range s.tasks {
+			for _, t := range s.snap() {
 				t.blocked = false
 			}
 		}
@@ -319,7 +381,7 @@ func (s *sched) lastTask() *stask {
 	if s.last < 0 {
 		return nil
 	}
-	return s.tasks[s.last]
+	return s.task(s.last)
 }
 
 // absorbWaiter waits for one task that was blocked for real to reach a yield point. False: all of
@@ -328,11 +390,11 @@ func (s *sched) absorbWaiter() bool {
 	for tries := 0; tries < 200; tries++ {
 		select {
 		case id := <-s.back:
-			s.tasks[id].waiting = false
+			s.task(id).waiting = false
 			return true
 		case <-time.After(5 * time.Millisecond):
 			all := true
-			for _, t := range s.tasks {
+			for _, t := range s.snap() {
 				if !t.done && t.waiting && !blockedForReal(t) {
 					all = false
 				}
@@ -368,6 +430,10 @@ type c09Task struct {
 	got         error
 }
 
+// c09WallClock, set by the test-binary build of the C09 worker, runs the unset-Now scenario under a
+// virtual wall clock.
+var c09WallClock func(r *core.Run, is *Issued, a *Party)
+
 func runC09(r *core.Run) {
 	a := NewParty(r, "a", 0)
 	small := images.Small()
@@ -375,6 +441,9 @@ func runC09(r *core.Run) {
 	otherIs := a.Endorse(r, worldp.Req{Image: small[(r.Intn(len(small)-1, "other")+1)%len(small)], SNP: true})
 	if is.Image == otherIs.Image {
 		otherIs = a.Endorse(r, worldp.Req{Image: small[(indexOf(small, is.Image)+1)%len(small)], SNP: true})
+	}
+	if c09WallClock != nil && r.Chance(8, "wall-clock-scenario?") {
+		c09WallClock(r, is, a)
 	}
 	now := a.A.Now.Add(time.Hour)
 	net := NewSimNet(nil)
@@ -606,6 +675,9 @@ func runC09(r *core.Run) {
 	if s.nwaiting > 0 {
 		r.Probes["blocked-in-uncontrolled-primitive"] += s.nwaiting
 	}
+	if s.naux > 0 {
+		r.Probes["helper-goroutines-scheduled"] += s.naux
+	}
 	if s.deadlock {
 		r.Fail("result-differs-from-isolation", "deadlock", "the concurrent calls wait for each other's locks for ever (schedule %s): no call completes, each completes in isolation", core.Short(string(s.picks), 80))
 		return
@@ -631,7 +703,9 @@ func runC09(r *core.Run) {
 		if strings.HasPrefix(t.measClass, "unendorsed") && got {
 			r.Fail("unendorsed-accepted", fmt.Sprintf("shared-%d", shape), "%s: task %c's report carries a measurement the endorsement does not list, yet it was accepted (%d context switches)", where, 'A'+i, s.switches)
 		}
-		if s.tasks[i].netFault && !got {
+		// its own fetch hit the transient outage (seen on its goroutine, or — when the code under
+		// test downloads in a helper goroutine — told by the error it returns)
+		if !got && (s.tasks[i].netFault || (t.got != nil && strings.Contains(t.got.Error(), "connection reset (transient)"))) {
 			r.Probe("call-failed-on-its-own-fetch")
 			continue
 		}
